@@ -446,6 +446,13 @@ func TestVerifC05_sign25519(t *testing.T) {
 		"equal ref/eddsa (which must equal crypto/ed25519 first); the reference signature is accepted by every verification route; distinct = distinct (variant, seed, message, context)")
 	seeds := verifmc.Seeds(32, r.Seed())
 	extra := c05ExtraSeeds(r.Pick(24, 256), 32)
+	fl := int64(1)
+	if !r.Thorough() && r.Config() != "default" {
+		// quick tier, configurations other than default: a declared subset
+		fl = 4
+		seeds, extra = seeds[2:4], extra[:8]
+		r.NotExhaustive("quick tier, non-default configuration: 2 of the structured seeds, 8 extra seeds")
+	}
 	for _, v := range []*eddsa.Variant{eddsa.Ed25519, eddsa.Ed25519ctx, eddsa.Ed25519ph} {
 		signers, entries, ctxs := c05Signers25519(v), c05Entries25519(v), c05Ctxs(v)
 		errs := c05kit.SignAll(r, verifmc.ParallelFor, "sign25519", v, signers, entries, c05Std(v), seeds, c05Msgs(), ctxs, true)
@@ -456,30 +463,38 @@ func TestVerifC05_sign25519(t *testing.T) {
 	}
 	r.Set("seeds", len(seeds))
 	r.Set("extra_seeds", len(extra))
-	r.RequireCounter("signature-bytes-equal", 500)
-	r.RequireCounter("honest-accepted", 500)
-	r.RequireCounter("second-oracle-agrees", 200)
+	r.RequireCounter("signature-bytes-equal", 500/fl)
+	r.RequireCounter("honest-accepted", 500/fl)
+	r.RequireCounter("second-oracle-agrees", 200/fl)
 }
 
 func TestVerifC05_verify25519(t *testing.T) {
 	r := verifmc.Start(t, "C05", "verify25519")
 	defer r.Finish()
 	r.Rule("per variant and base (seed, message, context): honest signature; S in {0,1,S+-1,L-1,L,L+1,S+jL (j<=16, while it fits),2^252,2^253-1,2^253,2^253+S,S|2^k (k=253..255),all-ones}; " +
-		"A and R: all 8 small-order points, every y in [p,2^255) x sign bit (38 strings), forged signatures over small-order and mixed-order keys and R with torsion, " +
+		"A = R = identity with S = jL (j in {0,1,2,3,4,5,8,15}); A and R: all 8 small-order points, every y in [p,2^255) x sign bit (38 strings), forged signatures over small-order and mixed-order keys and R with torsion, " +
 		"non-canonical strings denoting small-order points (y=p, y=p+1, x=0 with sign bit) carrying a signature valid for the denoted point; wrong lengths; altered message and context; contexts of 256/257/511/512 bytes signed with a wrapped length octet; " +
 		"every single-bit flip of A, R and S (base b0 in the quick tier, all bases in the thorough tier); every variant's honest signature offered to the other variants; " +
 		"each case judged must-accept / must-reject / either by ref/eddsa and given to every verification route; distinct = distinct (variant, key, message, signature, context)")
 	vs := []*eddsa.Variant{eddsa.Ed25519, eddsa.Ed25519ctx, eddsa.Ed25519ph}
+	// quick tier, configurations other than default: one base per variant, no bit flips (declared)
+	light := !r.Thorough() && r.Config() != "default"
+	if light {
+		r.NotExhaustive("quick tier, non-default configuration: base b0 only, no single-bit flips")
+	}
 	for _, v := range vs {
 		bases := c05Bases(v, 32)
 		if !r.Thorough() {
 			bases = bases[:2]
 		}
+		if light {
+			bases = bases[:1]
+		}
 		for bi, b := range bases {
 			if r.Expired() {
 				return
 			}
-			flips := r.Thorough() || (bi == 0 && v == eddsa.Ed25519)
+			flips := r.Thorough() || (bi == 0 && v == eddsa.Ed25519 && !light)
 			if !flips {
 				r.NotExhaustive("quick tier: single-bit flips only on base b0 of plain Ed25519")
 			}
@@ -506,15 +521,24 @@ func TestVerifC05_verify25519(t *testing.T) {
 			}
 		}
 	}
-	r.RequireCounter("class:must-accept", 6)
-	r.RequireCounter("class:either", 30)
-	r.RequireCounter("reason:S>=L", 60)
-	r.RequireCounter("reason:A-not-canonical-point", 200)
-	r.RequireCounter("reason:R-not-canonical-point", 200)
-	r.RequireCounter("reason:cofactored-equation-fails", 300)
-	r.RequireCounter("reason:context-too-long", 8)
-	r.RequireCounter("lax:canonical-y", 12)
-	r.RequireCounter("lax:x0-sign", 12)
-	r.RequireCounter("group:flip-A", 256)
-	r.RequireCounter("group:flip-S", 256)
+	fl := func(n int64) int64 {
+		if light {
+			return n / 4
+		}
+		return n
+	}
+	r.RequireCounter("class:must-accept", fl(6))
+	r.RequireCounter("class:either", fl(30))
+	r.RequireCounter("reason:S>=L", fl(60))
+	r.RequireCounter("reason:A-not-canonical-point", fl(200))
+	r.RequireCounter("reason:R-not-canonical-point", fl(200))
+	r.RequireCounter("reason:cofactored-equation-fails", fl(300))
+	r.RequireCounter("reason:context-too-long", fl(8))
+	r.RequireCounter("lax:canonical-y", fl(12))
+	r.RequireCounter("lax:S-range", fl(24))
+	r.RequireCounter("lax:x0-sign", fl(12))
+	if !light {
+		r.RequireCounter("group:flip-A", 256)
+		r.RequireCounter("group:flip-S", 256)
+	}
 }
